@@ -3,7 +3,6 @@
 import re
 from gettext import NullTranslations
 from typing import Any
-from typing import cast
 
 from markupsafe import Markup
 
@@ -13,6 +12,7 @@ from liquid2.builtin import Filter
 from liquid2.builtin import KeywordArgument
 from liquid2.builtin import PositionalArgument
 from liquid2.builtin import StringLiteral
+from liquid2.exceptions import LiquidTypeError
 from liquid2.filter import int_arg
 from liquid2.messages import MESSAGES
 from liquid2.messages import MessageText
@@ -87,13 +87,17 @@ class BaseTranslateFilter:
         ]
 
     def _resolve_translations(self, context: RenderContext) -> Translations:
-        return cast(
-            Translations,
-            # Global data only. Templates can't choose the object we call.
-            context.base_globals.get(
-                self.translations_var, self.default_translations
-            ),
+        # Global data only. Templates can't choose the object we call.
+        translations = context.base_globals.get(
+            self.translations_var, self.default_translations
         )
+        if not isinstance(translations, Translations):
+            raise LiquidTypeError(
+                f"expected a message catalog at '{self.translations_var}', "
+                f"found {type(translations).__name__}",
+                token=None,
+            )
+        return translations
 
 
 class Translate(BaseTranslateFilter, TranslatableFilter):
